@@ -67,7 +67,10 @@ def main(ctx, replay=None):
         cplx = bool(rng.random() < 0.5)
         U = random_unitary(rng, n, cplx)                       # rows = base vectors
         perm = rng.permutation(n)
-        phases = numpy.exp(1j * rng.uniform(0, 2 * numpy.pi, n)) if cplx else rng.choice([-1.0, 1.0], n)
+        if cplx and t % 3 == 0:
+            phases = rng.choice(numpy.array([1, 1j, -1, -1j]), n)            # quarter turns: the overlap is purely imaginary
+        else:
+            phases = numpy.exp(1j * rng.uniform(0, 2 * numpy.pi, n)) if cplx else rng.choice([-1.0, 1.0], n)
         eps = rng.uniform(0, 0.05)
         noise = rng.normal(size=(n, n)) + (1j * rng.normal(size=(n, n)) if cplx else 0)
         noise *= eps / numpy.sqrt(n) / max(numpy.abs(noise).max(), 1e-12) * numpy.sqrt(n) * 0.2
@@ -187,7 +190,7 @@ def load(ctx, rng, evec_load, eig):
                         break
                     for l in range(np_):
                         (mid, thz, cm), vec = modes[l]
-                        if mid != l + 1 or abs(thz - vals["freq"][q][l][0]) > 1e-9 or abs(cm - vals["freq"][q][l][1]) > 1e-9:
+                        if mid != l + 1 or not abs(thz - vals["freq"][q][l][0]) <= 1e-9 or not abs(cm - vals["freq"][q][l][1]) <= 1e-9:
                             bad = f"mode index / frequencies of mode {l+1}"
                         elif not numpy.allclose(numpy.array(vec), vals["vec"][q, l].reshape(-1), atol=1e-9):
                             bad = f"vector components of mode {l+1}"
